@@ -342,8 +342,8 @@ func c11Check(c *eng.Case) *eng.Outcome {
 		bound := 1
 		if c.Get("bound") != "" {
 			fmt.Sscan(c.Get("bound"), &bound)
-		} else if eng.Tier == "thorough" {
-			bound = 2
+		} else if eng.Tier == "thorough" && strings.HasPrefix(c.Get("doc"), "pager patterns") {
+			bound = 2 // two deviations on the pager corpus (where the ranged maps are largest); one elsewhere
 		}
 		if c.P == nil {
 			c.P = map[string]string{}
@@ -481,7 +481,7 @@ func init() {
 	eng.Register(&eng.Prop{
 		ID:        "C11",
 		DesignRef: "§5 C11",
-		Rule: "(1) map orders: for each corpus document - pagers of 6 pages whose 5 links each follow one of 3 (quick) / 4 (thorough) URL patterns, current page 2|4 / 1..6, both algorithms; S1,S2 with <= 1 / <= 2 insertions over 19 atoms (embeds with several query parameters, multi-label blocks, schema.org item, pagers) x flags {none, all} x both algorithms - a DFS explores every execution with <= 1 (quick) / <= 2 (thorough) non-default iteration orders at the range-over-map sites (all permutations for <= 4 keys; descending, rotations, adjacent transpositions above); the canonical result (all fields but TimingInfo) must be identical. " +
+		Rule: "(1) map orders: for each corpus document - pagers of 6 pages whose 5 links each follow one of 3 (quick) / 4 (thorough) URL patterns, current page 2|4 / 1..6, both algorithms; S1,S2 with <= 1 / <= 2 insertions over 19 atoms (embeds with several query parameters, multi-label blocks, schema.org item, pagers) x flags {none, all} x both algorithms - a DFS explores every execution with <= 1 non-default iteration order (<= 2 on the pager corpus in thorough) at the range-over-map sites (all permutations for <= 4 keys; descending, rotations, adjacent transpositions above); the canonical result (all fields but TimingInfo) must be identical. " +
 			"(2) histories: every sequence of <= 3 calls from a menu of 9 (document, options, entry point; including a page that starts with media, nil options and ApplyForURL(nil) through a stub transport), and every ordered pair from a 14-entry menu that distils one document full of relative references under page URLs sharing hosts, directories and string prefixes, runs in a fresh process; each call must equal the same call alone in a fresh process; package-variable writes after init are reported. (3) entry points: ApplyForReader == ApplyForFile == Apply(dom.Parse) on all byte-token strings of <= 2 / <= 3 tokens and the corpus. " +
 			"Non-trivial = an execution met a ranged map with >= 2 keys and a non-default order was explored; histories of >= 2 calls; inputs that parse.",
 		Enumerate: c11Enumerate,
